@@ -104,6 +104,7 @@ func (c *BaseLayout) GetBuffer() *bytes.Buffer {
 // but only if it does not exceed the configured capacity.
 func (c *BaseLayout) PutBuffer(buf *bytes.Buffer) {
 	if buf.Cap() <= int(BufferCap.Load()) {
+		verifBuf(1, buf)
 		buf.Reset()
 		bufferPool.Put(buf)
 	}
@@ -129,6 +130,7 @@ func (c *TextLayout) ToBytes(e *Event) []byte {
 	const separator = "||"
 
 	buf := c.GetBuffer()
+	verifBuf(0, buf)
 	defer c.PutBuffer(buf)
 
 	buf.WriteString("[")
@@ -164,6 +166,7 @@ type JSONLayout struct {
 // ToBytes converts a log event to JSON representation.
 func (c *JSONLayout) ToBytes(e *Event) []byte {
 	buf := c.GetBuffer()
+	verifBuf(0, buf)
 	defer c.PutBuffer(buf)
 
 	headers := make([]Field, 0, 5)
